@@ -7,8 +7,8 @@ snapshots so that its versions straddle two table files."""
 def khex(b):
     return b.hex() if b else '-'
 
-def key_pool(rng, n):
-    alpha = [b'a', b'b', b'\xff']
+def key_pool(rng, n, cmpkind=0):
+    alpha = [b'a', b'b', b'\xff'] if cmpkind != 2 else [b'a', b'A', b'b', b'B', b'\xff']
     pool = [b'']
     long_prefix = bytes([0x70]) * 190
     while len(pool) < n:
@@ -44,7 +44,7 @@ CONFIG_MATRIX = {
     'cache': [-1, 0, 8192],       # -1: library default cache
     'mmap': [0, 1],
     'reuse_logs': [0, 1],
-    'comparator': [0, 0, 1],
+    'comparator': [0, 0, 1, 2],
     'paranoid': [0, 1],
 }
 
@@ -52,6 +52,8 @@ def gen_config(rng, fixed=None):
     cfg = {k: rng.choice(v) for k, v in sorted(CONFIG_MATRIX.items())}
     if fixed:
         cfg.update(fixed)
+    if cfg.get('comparator') == 2:
+        cfg['bloom'] = 0      # the built-in bloom filter hashes key BYTES: it is only valid with comparators whose equality is byte equality
     return cfg
 
 PROFILES = {
@@ -88,7 +90,7 @@ def gen_history(rng, profile='c01', nops=80, cfg=None, heavy=None):
     w = PROFILES[profile]
     names = sorted(w)
     total = sum(w.values())
-    keys = key_pool(rng, rng.range(4, 18))
+    keys = key_pool(rng, rng.range(4, 18), int(cfg.get('comparator', 0)))
     ops = ['open']
     live_snaps = []; nsnaps = 0
     open_iters = []
@@ -219,3 +221,35 @@ def straddle_history(nver=40, cmp=0):
     for i in range(0, nver, 3): ops.append('release %d' % i)
     ops += ['crange 1 * *', 'layout', 'get %s -' % K, 'get %s 4' % K, 'scan -', 'crange 2 * *', 'crange 3 * *', 'layout', 'get %s -' % K, 'scan -', 'scan 1', 'reopen', 'get %s -' % K, 'scan -', 'layout']
     return (cfg, ops)
+
+
+BASE_CFG = {'write_buffer': 65536, 'block_size': 4096, 'restart': 16, 'max_file_size': 1048576, 'compression': 0,
+            'bloom': 10, 'cache': -1, 'mmap': 0, 'reuse_logs': 0, 'comparator': 0, 'paranoid': 0}
+
+def corpus_histories():
+    """Fixed histories aimed at case splits that random histories rarely reach (several come from seeded changes)."""
+    hx = lambda s: s.encode().hex()
+    out = []
+    # (1) seek-triggered TRIVIAL MOVE (automatic compaction), then merges: obsolete files must disappear
+    ops = ['open'] + ['put %s @20:%d' % (hx('k%03d' % i), i % 256) for i in range(0, 1000, 5)] + ['flush']
+    ops += ['crange %d * *' % l for l in range(4)] + ['layout', 'put %s @9:1' % hx('k100'), 'put %s @9:2' % hx('k900'), 'flush', 'layout']
+    ops += ['get %s -' % hx('k500')] * 130 + ['layout', 'crange 3 * *', 'layout', 'put %s @5:3' % hx('k000'), 'compact * *', 'layout']
+    ops += ['get %s -' % hx('k%03d' % i) for i in (0, 100, 500, 900, 995)] + ['scan -', 'layout']
+    out.append((dict(BASE_CFG), ops))
+    # (2) level-0 overlap closure, upper end: F1=[p..z] older, F2=[b..q] newer, compact [a,c]
+    ops = ['open', 'put %s @3:1' % hx('p'), 'put %s @3:2' % hx('z'), 'reopen', 'put %s @3:3' % hx('b'), 'put %s @3:4' % hx('p'),
+           'put %s @3:5' % hx('q'), 'reopen', 'layout', 'compact %s %s' % (hx('a'), hx('c')), 'layout', 'get %s -' % hx('p'), 'scan -',
+           'reopen', 'get %s -' % hx('p'), 'layout']
+    out.append((dict(BASE_CFG), ops))
+    # (3) level-0 overlap closure, lower end: Z=[a..c] (old b), Y=[b..f] (new b), X=[e..g], compact [e,g]
+    ops = ['open', 'put %s @3:1' % hx('a'), 'put %s @3:2' % hx('b'), 'put %s @3:3' % hx('c'), 'reopen',
+           'put %s @3:4' % hx('b'), 'put %s @3:5' % hx('f'), 'reopen', 'put %s @3:6' % hx('e'), 'put %s @3:7' % hx('g'), 'reopen', 'layout',
+           'compact %s %s' % (hx('e'), hx('g')), 'layout', 'get %s -' % hx('b'), 'scan -', 'reopen', 'get %s -' % hx('b'), 'layout']
+    out.append((dict(BASE_CFG), ops))
+    # (4) data pushed down to the deepest level, then two clean reopens
+    ops = ['open'] + ['put %s @30:%d' % (hx('d%02d' % i), i) for i in range(20)] + ['flush'] + ['crange %d * *' % l for l in range(6)]
+    ops += ['layout', 'put %s @4:9' % hx('d05'), 'flush', 'layout', 'reopen', 'layout', 'reopen', 'layout']
+    ops += ['get %s -' % hx('d%02d' % i) for i in (0, 5, 19)] + ['scan -', 'crange 2 * *', 'layout', 'reopen', 'layout', 'scan -']
+    out.append((dict(BASE_CFG), ops))
+    out.append((dict(BASE_CFG, reuse_logs=1), list(ops)))
+    return out
